@@ -2,6 +2,7 @@ import MitmVerif.Model.C03
 import MitmVerif.Model.C03_Enc
 import Driver.Proto
 import Std.Data.HashMap
+import Std.Data.HashSet
 open MitmVerif Driver MitmVerif.C03
 
 namespace C03Driver
@@ -179,10 +180,65 @@ def certMain : IO Unit := do
   let nums := (all.map Core.enc).toArray.qsort (· < ·)
   for n in nums do IO.println (toString n)
 
+/-- projection onto the control skeleton: the auxiliary flow attributes are reset -/
+def skel (c : Core) : Core :=
+  { c with err := .none, hasResp := false, respKind := .norm, reqStream := false, respStream := false, reqWs := false,
+           connect2xx := true, reqBody := false, respBody := false, draining := false }
+
+def auxAll : List (Core → Core) :=
+  [ErrK.none, .killed, .other].flatMap fun e => bools.flatMap fun hr => [RespKind.norm, .ws101, .up101, .invalid].flatMap fun rk =>
+  bools.flatMap fun rs => bools.flatMap fun ps => bools.flatMap fun ws => bools.flatMap fun c2 => bools.map fun dr =>
+    fun c => { c with err := e, hasResp := hr, respKind := rk, reqStream := rs, respStream := ps, reqWs := ws, connect2xx := c2, draining := dr }
+
+/-- `mv_c03 checkinv`: is the set of reachable skeletons inductive when the auxiliary attributes are arbitrary? -/
+def checkInvMain : IO Unit := do
+  let c0 : Core := {}
+  let r := bfs ((Std.HashMap.emptyWithCapacity 4096).insert c0 none) [c0]
+  let sk : Std.HashSet Core := r.toList.foldl (fun acc (c, _) => acc.insert (skel c)) {}
+  IO.println s!"skeletons: {sk.size}"
+  let mut bad := 0
+  for s in sk.toList do
+    for f in auxAll do
+      let c := f s
+      for (ev, p, d) in succs c do
+        if !sk.contains (skel d) then
+          bad := bad + 1
+          if bad ≤ 5 then
+            IO.println s!"not inductive: {reprStr c}\n  --{reprStr ev} peek={p}-->\n  {reprStr (skel d)}"
+  IO.println s!"violations of inductiveness: {bad}"
+
+partial def bfsH (seen : Std.HashSet Core) (frontier : List Core) : Std.HashSet Core :=
+  match frontier with
+  | [] => seen
+  | _ =>
+    let (seen, next) := frontier.foldl (fun acc s =>
+      auxAll.foldl (fun acc f =>
+        (succs (f s)).foldl (fun (acc : Std.HashSet Core × List Core) (_, _, d) =>
+          let d := skel d
+          if acc.1.contains d then acc else (acc.1.insert d, d :: acc.2)) acc) acc) (seen, [])
+    bfsH seen next
+
+/-- `mv_c03 havoc`: reachable skeletons when the auxiliary attributes are arbitrary at every step -/
+def havocMain : IO Unit := do
+  let c0 : Core := {}
+  let r := bfsH ((Std.HashSet.emptyWithCapacity 4096).insert (skel c0)) [skel c0]
+  IO.println s!"havoc-reachable skeletons: {r.size}"
+  let all := r.toList
+  let cnt (p : Core → Bool) : Nat := (all.filter p).length
+  IO.println s!"v1 {cnt fun c => !c.bad && c.m.v1} v2 {cnt fun c => !c.bad && c.m.v2} v3 {cnt fun c => !c.bad && c.m.v3} v4 {cnt fun c => !c.bad && c.m.v4} v5 {cnt fun c => !c.bad && c.m.v5} closure {cnt closureBad}"
+  match all.filter closureBad with
+  | c :: _ => IO.println (reprStr c)
+  | [] => pure ()
+  match all.filter (fun c => !c.bad && c.m.v4) with
+  | c :: _ => IO.println (reprStr c)
+  | [] => pure ()
+
 end C03Driver
 
 def main (args : List String) : IO Unit :=
   match args with
   | ["reach"] => C03Driver.reachMain
   | ["cert"] => C03Driver.certMain
+  | ["havoc"] => C03Driver.havocMain
+  | ["checkinv"] => C03Driver.checkInvMain
   | _ => runState C03Driver.stepLine (init 0 0)
